@@ -721,15 +721,28 @@ theorem nextState_complete (m : Mach) : ∀ fuel, Complete m fuel (nextState m f
 
 /-! ### `Machine.transition`: the loop over the state populations -/
 
+theorem seen_st {r : Row} {s : Nat} (h : r.seen = some s) : r.st = s := by
+  unfold Row.seen at h
+  split at h
+  · simpa using h
+  · cases h
+
+theorem seen_tracked {r : Row} {s : Nat} (h : r.seen = some s) : r.tracked = true := by
+  unfold Row.seen at h
+  split at h
+  · assumption
+  · cases h
+
+
 theorem runPops_sound (m : Mach) (fuel : Nat) (idx : List Nat) (tab0 : Table) :
     ∀ (ps : List (Nat × List Nat)) (tab tab' : Table),
-      (∀ p ∈ ps, p.2 = idx.filter (fun i => (tab0[i]?.map (·.st)) == some p.1)) →
+      (∀ p ∈ ps, p.2 = idx.filter (fun i => (tab0[i]?.bind Row.seen) == some p.1)) →
       (ps.map (·.1)).Nodup →
-      (∀ i ∈ idx, ∀ p ∈ ps, tab0[i]?.map (·.st) = some p.1 → tab[i]? = tab0[i]?) →
+      (∀ i ∈ idx, ∀ p ∈ ps, tab0[i]?.bind Row.seen = some p.1 → tab[i]? = tab0[i]?) →
       runPops m fuel ps tab = .ok tab' →
         tab'.length = tab.length ∧
-        (∀ i, (i ∉ idx ∨ ∀ p ∈ ps, tab0[i]?.map (·.st) ≠ some p.1) → tab'[i]? = tab[i]?) ∧
-        (∀ i ∈ idx, ∀ p ∈ ps, tab0[i]?.map (·.st) = some p.1 →
+        (∀ i, (i ∉ idx ∨ ∀ p ∈ ps, tab0[i]?.bind Row.seen ≠ some p.1) → tab'[i]? = tab[i]?) ∧
+        (∀ i ∈ idx, ∀ p ∈ ps, tab0[i]?.bind Row.seen = some p.1 →
           ∃ path, moveOne m fuel p.1 i = .ok path ∧
             tab'[i]? = (tab0[i]?).map (fun r => { r with st := final p.1 path })) := by
   intro ps
@@ -746,8 +759,8 @@ theorem runPops_sound (m : Mach) (fuel : Nat) (idx : List Nat) (tab0 : Table) :
     split at h
     · cases h
     · rename_i tab1 hstep
-      have hpop : pop = idx.filter (fun i => (tab0[i]?.map (·.st)) == some s) := hdef (s, pop) List.mem_cons_self
-      have hmem : ∀ i, i ∈ pop ↔ i ∈ idx ∧ tab0[i]?.map (·.st) = some s := by
+      have hpop : pop = idx.filter (fun i => (tab0[i]?.bind Row.seen) == some s) := hdef (s, pop) List.mem_cons_self
+      have hmem : ∀ i, i ∈ pop ↔ i ∈ idx ∧ tab0[i]?.bind Row.seen = some s := by
         intro i; rw [hpop]; simp [List.mem_filter]
       have hnd' : (rest.map (·.1)).Nodup := (List.nodup_cons.mp (by simpa using hnd)).2
       have hs_notin : s ∉ rest.map (·.1) := (List.nodup_cons.mp (by simpa using hnd)).1
@@ -757,9 +770,9 @@ theorem runPops_sound (m : Mach) (fuel : Nat) (idx : List Nat) (tab0 : Table) :
         rw [hun i hii (s, pop) List.mem_cons_self hst]
         cases hr : tab0[i]? with
         | none => rw [hr] at hst; cases hst
-        | some r => rw [hr] at hst; exact ⟨r, rfl, by simpa using hst⟩
+        | some r => rw [hr] at hst; exact ⟨r, rfl, seen_st (by simpa using hst)⟩
       obtain ⟨hl1, hf1, hp1⟩ := nextState_sound m fuel s pop tab tab1 hpre hstep
-      have hun' : ∀ i ∈ idx, ∀ p ∈ rest, tab0[i]?.map (·.st) = some p.1 → tab1[i]? = tab0[i]? := by
+      have hun' : ∀ i ∈ idx, ∀ p ∈ rest, tab0[i]?.bind Row.seen = some p.1 → tab1[i]? = tab0[i]? := by
         intro i hi p hp hst
         have hni : i ∉ pop := by
           intro hh
@@ -778,7 +791,7 @@ theorem runPops_sound (m : Mach) (fuel : Nat) (idx : List Nat) (tab0 : Table) :
           cases hi with
           | inl h1 => exact h1 hii
           | inr h1 => exact h1 (s, pop) List.mem_cons_self hst
-        have hi' : i ∉ idx ∨ ∀ p ∈ rest, tab0[i]?.map (·.st) ≠ some p.1 := by
+        have hi' : i ∉ idx ∨ ∀ p ∈ rest, tab0[i]?.bind Row.seen ≠ some p.1 := by
           cases hi with
           | inl h1 => exact Or.inl h1
           | inr h1 => exact Or.inr (fun p hp => h1 p (List.mem_cons_of_mem _ hp))
@@ -789,7 +802,7 @@ theorem runPops_sound (m : Mach) (fuel : Nat) (idx : List Nat) (tab0 : Table) :
           have hip : i ∈ pop := (hmem i).mpr ⟨hi, hst⟩
           obtain ⟨path, hmv, ht⟩ := hp1 i hip
           refine ⟨path, hmv, ?_⟩
-          have hrest : ∀ p ∈ rest, tab0[i]?.map (·.st) ≠ some p.1 := by
+          have hrest : ∀ p ∈ rest, tab0[i]?.bind Row.seen ≠ some p.1 := by
             intro p hp hh
             rw [hst] at hh
             cases hh
